@@ -87,9 +87,50 @@ def run_c01(ctx):
     wc = random_cases(ctx, 150 if q else 2000, ["wide_leaf"], wide=True, max_kids=3, depth=2, values=(-3, 40000))
     for c in wc: c["wide"] = True
     cases += wc
+    cases = chain_preludes(cases) + edit_twins(ctx) + narrow_min_cases(ctx)
     ctx.pmap(drivers.drv_to_poly, _stamp(cases, "drv_to_poly"))
     if not q: repo_test_events(ctx, ['to_poly'])
     ctx.validate()
+
+def narrow_min_cases(ctx):
+    """leaves whose range starts at the least value of a narrow integer type (given as numpy scalars of that type by the drivers)
+    below nodes that negate them"""
+    a = LEAF("a")
+    out = []
+    for lo in (-128, -32768):
+        t = LEAF("t", lo, lo + 1)
+        for r in (_R("Not", t), _R("Imply", t, a), _R("AtLeast", t, a, v=-1, s=-1, id="N"), _R("AtLeast", t, a, v=1, s=1, id="P"),
+                  _R("All", _R("Not", t), a, id="A"), _R("XNor", t, a), _R("Any", _R("AtLeast", t, v=-lo, s=-1, id="M"), a)):
+            out.append({"recipe": r, "src": "handmade"})
+    ctx.region("leaf_at_narrow_type_minimum")
+    return out
+
+def edit_twins(ctx):
+    """pairs of models that differ in one named rule only (an edited rule set, rebuilt in the same process): each one is checked
+    after the other one has been built and encoded"""
+    a, b, c, x = LEAF("a"), LEAF("b"), LEAF("c"), LEAF("x")
+    pairs = []
+    for v1, v2 in ((-1, -2), (-2, -1), (1, 2), (-1, 0)):
+        for top in ("All", "Any"):
+            inner = lambda v: _R("AtLeast", a, b, c, v=v, s=-1, id="B")
+            pairs.append((_R(top, inner(v1), x, id="A"), _R(top, inner(v2), x, id="A")))
+        pairs.append((_R("All", _R("Imply", x, _R("AtLeast", a, b, c, v=v1, s=-1, id="B"), id="I"), id="A"),
+                      _R("All", _R("Imply", x, _R("AtLeast", a, b, c, v=v2, s=-1, id="B"), id="I"), id="A")))
+    pairs.append((_R("All", _R("Any", a, b, id="B"), x, id="A"), _R("All", _R("Any", a, c, id="B"), x, id="A")))
+    pairs.append((_R("All", _R("Any", a, b, id="B"), x, id="A"), _R("All", _R("All", a, b, id="B"), x, id="A")))
+    out = []
+    for r1, r2 in pairs:
+        out.append({"recipe": r2, "prelude": [r1], "src": "handmade"})
+        out.append({"recipe": r1, "prelude": [r2], "src": "handmade"})
+    ctx.region("edited_twin_in_same_process")
+    return out
+
+def chain_preludes(cases, every=3):
+    """neighbours in the (sorted) list of specified models differ minimally: every third one is checked after its neighbour"""
+    for i in range(1, len(cases)):
+        if i % every == 0 and "recipe" in cases[i - 1] and "prelude" not in cases[i]:
+            cases[i]["prelude"] = [cases[i - 1]["recipe"]]
+    return cases
 
 # ------------------------------------------------------------------------------------------- C02
 def run_c02(ctx):
@@ -109,6 +150,7 @@ def run_c02(ctx):
     wc = random_cases(ctx, 150 if q else 2000, ["wide_leaf"], wide=True, max_kids=3, depth=2, values=(-3, 40000))
     for c in wc: c["wide"] = True
     cases += wc
+    cases = chain_preludes(cases) + edit_twins(ctx)
     ctx.pmap(drivers.drv_to_poly2, _stamp(cases, "drv_to_poly2", max_full=1 << 12))
     ctx.validate()
 
@@ -124,6 +166,7 @@ def run_c03(ctx):
     cases += spec_cases(ctx, r2, n_over=2)
     cases += empty_cases(ctx, ["C03"], n_over=2)
     cases += random_cases(ctx, 300 if q else 4000, REGIONS + ["prefixed_compound"], max_box=128, prefix=0.2)
+    cases += [dict(c, n_over=2) for c in narrow_min_cases(ctx)]
     ctx.pmap(drivers.drv_evaluate, _stamp(cases, "drv_evaluate"))
     if not q: repo_test_events(ctx, ['evaluate'])
     ctx.validate()
@@ -180,6 +223,14 @@ def run_c05(ctx):
     r3 = ctx.model_check("PuanBuild", u3, invariants=["C05"], dump=True, name="Build_C05_degenerate")
     cases += spec_cases(ctx, r3)
     cases += random_cases(ctx, 300 if q else 4000, REGIONS + ["degenerate_leaf"], max_box=128)
+    # the configurator's defaulted Any / Xor inherit negate(): their restructured "at least one" half must be negated as it stands
+    for names in (("k", "l", "m"), ("a", "b", "c", "d"), ("a", "b", "c"), ("x", "y", "z"), ("p", "q"), ("b", "a", "d", "c")):
+        for cls in ("ccXor", "ccAny"):
+            for dflt in names[:3] + ("",):
+                base = dict(_R(cls, *[LEAF(i) for i in names]), d=dflt)
+                for r in (base, dict(base, id="X"), _R("Not", base), _R("All", base, LEAF("w"), id="A"), _R("Imply", LEAF("w"), base)):
+                    cases.append({"recipe": r, "src": "handmade"})
+    ctx.region("defaulted_cc_group_negated")
     ctx.pmap(drivers.drv_negate, _stamp(cases, "drv_negate"))
     if not q: repo_test_events(ctx, ['negate'])
     ctx.validate()
@@ -243,6 +294,13 @@ def adversarial_handmade():
                    ((-1, 10), (-11, 0)), ((1, 23), (12, 3)), ((1, 234), (12, 34)), ((-2, 10), (-21, 0)), ((0, 11), (1, 10)), ((1, 11), (11, 1 + 10))):
         if b2[0] > b2[1]: continue
         out.append(_R("All", _R("Any", LEAF("a", *b1), b, id="B"), _R("Any", LEAF("a", *b2), c, id="C")))
+    # the same id defined with thresholds -1 and -2 (hash(-1) == hash(-2) in CPython), next to each other and at different depths
+    for v1, v2 in ((-1, -2), (-2, -1)):
+        B1 = _R("AtLeast", a, b, c, v=v1, s=-1, id="B"); B2 = _R("AtLeast", a, b, c, v=v2, s=-1, id="B")
+        out.append(_R("All", B1, B2))
+        out.append(_R("All", _R("Any", B1, x), _R("Any", B2, y)))
+        out.append(_R("All", B1, _R("Any", _R("All", B2, x), y)))
+        out.append(_R("All", _R("Not", _R("AtLeast", a, b, c, v=-v1 + 1, s=1, id="B")), _R("Not", _R("AtLeast", a, b, c, v=-v2 + 1, s=1, id="B"))))
     # generated-id coincidence: children "ab","c" and "a","bc" concatenate to the same id
     out.append(_R("All", _R("Any", _R("Any", LEAF("ab"), c), x), _R("Any", _R("Any", a, LEAF("bc")), y)))
     out.append(_R("All", _R("Any", LEAF("ab"), c), _R("Any", a, LEAF("bc"))))
@@ -402,6 +460,17 @@ def random_polys(ctx, n, required=("rows>=3", "cols>=3", "nonunit_coef", "zero_c
             for r in rows:
                 r[1 + j] = rng.choice([-1, 1]) * rng.randint(120, 200)
             ctx.region("narrow_dtype")
+        if k % 6 == 5:
+            # int8 storage, one integer column with a range of some tens and a non-unit coefficient: coefficient * bound leaves int8
+            dtype = "int8"
+            j = rng.randrange(nc)
+            lo = rng.randint(-5, 5)
+            bounds[j] = (lo, lo + rng.randint(25, 45))
+            for r in rows:
+                for i in range(len(r)): r[i] = max(-100, min(100, r[i]))
+                r[1 + j] = rng.choice([-1, 1]) * rng.randint(3, 6)
+                r[0] = max(-120, min(120, r[1 + j] * rng.randint(lo, lo + 45) + rng.randint(-3, 3)))
+            ctx.region("narrow_dtype_int8")
         if nr >= 3: ctx.region("rows>=3")
         if nc >= 3: ctx.region("cols>=3")
         if any(abs(x) > 1 for r in rows for x in r[1:]): ctx.region("nonunit_coef")
@@ -755,10 +824,18 @@ def history_cases(ctx, states, pairs_by_top):
 
 def run_histories(ctx, cases):
     refs = ctx.pmap_fresh(drivers.drv_reference, cases)
+    kept = []
     for c, r in zip(cases, refs):
+        if r and r[0].get("op") == "exc":
+            # the library raised while the fresh, directly built reference objects were built or queried: that is an event of the
+            # implementation (clause no_exception), not a failure of the machinery
+            ctx.add_event(r[0], dict(c, driver="drv_reference"))
+            continue
         if not r or r[0].get("op") != "ref":
             raise Machinery("reference run failed: %s" % (r,))
         c["refs"] = r[0]["res"]
+        kept.append(c)
+    cases = kept
     ctx.pmap(drivers.drv_history, _stamp(cases, "drv_history"))
     ctx.validate()
     # known findings: a KNOWN marker is only a finding if it is listed as open in known_findings.jsonl
@@ -839,6 +916,18 @@ def run_extra(ctx):
     cases = spec_cases(ctx, r) + random_cases(ctx, 200 if q else 2000, ["depth>=3", "explicit_id"], max_box=64)
     ctx.pmap(drivers.drv_x_model, _stamp(cases, "drv_x_model"))
     pc = poly_universe(ctx, ["RowBoundsExact"], "Poly_extra", bs=range(-1, 2), bounds=((0, 1), (-1, 2))) + random_polys(ctx, 300 if q else 3000)
+    for c in pc:
+        n = len(c["bounds"])
+        c["mask"] = [ctx.rng.choice([0, 0, 1, 2]) for _ in range(n)]
+        w = ctx.rng.randint(1, max(1, n))
+        c["patterns"] = [[ctx.rng.choice([0, 1, 1]) for _ in range(w)] for _ in range(ctx.rng.randint(1, 3))]
+    # patterns taken from the rows themselves (the interesting branches of neglectable_columns)
+    for c in list(pc[:: 3]):
+        n = len(c["bounds"])
+        rows = [[1 if v else 0 for v in r[1:]] for r in c["rows"]]
+        if rows and n:
+            c2 = dict(c, patterns=[rows[0]] + [[ctx.rng.choice([0, 1]) for _ in range(n)] for _ in range(ctx.rng.randint(0, 2))] + rows[1:2])
+            pc.append(c2)
     ctx.pmap(drivers.drv_x_poly, _stamp(pc, "drv_x_poly"))
     rng = ctx.rng
     ac = []
@@ -859,6 +948,7 @@ def run_extra(ctx):
 
 EXTRA_CLAUSES = {"short_of", "from_short", "variables", "atomic_compound", "reduced_cols", "reduced_projection", "row_distribution", "row_stretch_int",
                  "nb_addition", "nb_subtraction", "nb_all", "nb_on_off", "nb_on", "nb_off", "reduce2d_first", "reduce2d_last", "ranking",
+                 "row_stretch", "neglect_exact", "neglect_meaning", "neglect_receiver", "neglectable", "text_lines", "text_no_repeats", "text_sorted",
                  "or_get", "or_replace", "bounds_order", "bool_dtype", "compound_bounds", "sorted_by_id", "same_ids", "no_exception"}
 
 PROPS = {
